@@ -1,7 +1,8 @@
 (* Oracle driver for C04 / C10: runs the extracted Merkle model (free hash) on a case file.
    Per case prints  `<id> <model, release mode> ## <model, checked mode> ## <spec>`
    where <spec> is the result demanded by the independent specification (spec/MerkleSpec.v),
-   or `-` where the naive specification is not executed (heights above 16).
+   or `-` where the naive specification is not executed (heights above 13); the model columns are
+   `-` for `build` above 2^14 leafs (quadratic list model; covered by theorem C10_build_spec).
    Term syntax and the `t(n,ls,x)` abbreviation: see harness/src/bin/c04.rs. *)
 module ZZ = Z
 open Model
@@ -126,7 +127,10 @@ let run op a : string * string * string =
   | "build" ->
       let cutoff = z (nth 0) and n = int_of_string (nth 1) and ls = nth 2 in
       let ds = leafs_of n ls in
-      let f m = match t_from_digests cur_cutoff_fixed cutoff (t_build_fuel ds) ds with
+      (* above 2^14 leafs the list-based model is too slow to execute (quadratic); the specification is
+         still computed, and model = specification is theorem C10_build_spec *)
+      let f m = if n > 16384 then "-" else
+        match t_from_digests cur_cutoff_fixed cutoff (t_build_fuel ds) ds with
         | Ok t -> show_tree m t | Err -> "ERR" | Panic -> "PANIC" | OutOfFuel -> "FUEL" in
       let (r, c) = both f in
       let spec = if not (is_pow2 n) then "ERR" else begin
@@ -209,7 +213,8 @@ let () =
         match String.split_on_char ' ' line |> List.filter (fun s -> s <> "") with
         | id :: op :: args ->
             let (r, c, s) = try run op args with e -> let m = "ORACLE-EXN " ^ Printexc.to_string e in (m, m, m) in
-            Printf.printf "%s %s ## %s ## %s\n" id (fin r) (fin c) (if s = "-" then "-" else fin s)
+            let f x = if x = "-" then "-" else fin x in
+            Printf.printf "%s %s ## %s ## %s\n" id (f r) (f c) (f s)
         | _ -> ()
       end
     done
